@@ -33,6 +33,7 @@ def mutants(prog):
         ("add identity offdiag", Fm, "jacobian_dict", "if add_identity:", "if False:", "T5.jacobian"),
         ("fd spacing of the first item", Im, "spatial_derivatives", "fd_spacing = spacing[:, sdim]", "fd_spacing = spacing[0, sdim]", "T5.batch-spacing"),
         ("bspline kernel cache ignores the stride", Im, "spatial_derivatives", "key = (s, d)", "key = d", "T5.bspline"),
+        ("FlowFields.curl: rank instead of spatial dimension", "deepali.data.flow", "FlowFields.curl", "if self.sdim not in (2, 3):", "if self.ndim not in (2, 3):", "T5.flowfields-curl"),
     ]
     for name, mod, fn, old, new, expect in specs:
         ov = source_sub(prog, mod, fn, old, new)
